@@ -243,6 +243,9 @@ func (r *Run) Finish() {
 		}
 	}
 	cov["known_findings_not_reproduced_this_run"] = notSeen
+	if r.assumptions == nil {
+		r.assumptions = []string{}
+	}
 	doc := map[string]any{
 		"property_id": r.Prop, "tier": r.Tier, "seed": r.Seed, "level": r.Level,
 		"coverage": cov, "assumptions": r.assumptions,
